@@ -182,6 +182,17 @@ class SymCtx:
         ts = self._ints(name, n, lo, hi)
         return self._reg(name, 'str', ts, PStr([SInt(t) for t in ts]) if n else '')
 
+    def view(self, name, kind='bytes', maxlen=None, lo=0, hi=255):
+        """byte/int sequence of symbolic length as a window into an SMT array (see values.SView)"""
+        arr = z3.Array(name, z3.IntSort(), z3.IntSort())
+        ln = z3.Int(name + '!len')
+        self.path.assume(ln >= 0)
+        if maxlen is not None:
+            self.path.assume(ln <= maxlen)
+        v = SView(arr, z3.IntVal(0), ln, kind)
+        v.byte_range = (lo == 0 and hi == 255)
+        return self._reg(name, 'view:' + kind, (arr, ln), v)
+
     def seq(self, name, kind='bytes', maxlen=None):
         """byte/int sequence of symbolic length"""
         t = z3.Const(name, ops.IntSeq)
@@ -512,6 +523,10 @@ class SymCtx:
                 out[name] = [ev_int(t) for t in p]
             elif kind.startswith('floats:'):
                 out[name] = [ev_float(t) for t in p]
+            elif kind.startswith('view:'):
+                arr, ln = p
+                n = min(max(ev_int(ln), 0), 4096)
+                out[name] = [min(max(ev_int(z3.Select(arr, i)), 0), 255) for i in range(n)]
             elif kind.startswith('seq:'):
                 v = m.eval(p, model_completion=True)
                 ln = m.eval(z3.Length(p), model_completion=True).as_long()
